@@ -408,12 +408,53 @@ def _run_case(case):
                 hi = np.maximum(hi, lo)
                 b["lb"], b["ub"] = lo.tolist(), hi.tolist()
                 spec["options"]["scale"] = True
+        nan_entries = False
+        if rng.random() < 0.4 and spec.get("lin"):
+            # undefined entries in the linear data: NaN coefficients count as
+            # 0, NaN limits mean no limit - also in the violation the solver
+            # REPORTS (res.maxcv) and uses (Problem.maxcv)
+            nan_entries = True
+            for lc in spec["lin"]:
+                a = np.array(lc["A"], dtype=float)
+                lo = np.array(np.broadcast_to(np.asarray(lc["lb"], float),
+                                              (a.shape[0],)), dtype=float)
+                hi = np.array(np.broadcast_to(np.asarray(lc["ub"], float),
+                                              (a.shape[0],)), dtype=float)
+                u = rng.random()
+                if u < 0.5:
+                    a[int(rng.integers(a.shape[0])),
+                      int(rng.integers(a.shape[1]))] = math.nan
+                if u > 0.3:
+                    i = int(rng.integers(a.shape[0]))
+                    if rng.random() < 0.5:
+                        lo[i] = math.nan
+                    else:
+                        hi[i] = math.nan
+                lc["A"], lc["lb"], lc["ub"] = a.tolist(), lo.tolist(), \
+                    hi.tolist()
         rec = mrun.run(spec)
         pb = rec.run.pb
         if pb is None or not pb.bounds.is_feasible or pb.n == 0:
             return e2e.record(case, [], tags=["fam:problem", "skip"],
                               skipped=True)
         bt = rec.built
+        if rec.res is not None and not bt.nl:
+            # the violation reported for the returned point
+            xr = np.asarray(rec.res.x, dtype=float)
+            lv, lmag = truth.linear_violation(bt, xr)
+            want = float(np.max(lv, initial=0.0))
+            got = float(rec.res.maxcv)
+            tolr = 64 * EPS * (float(np.max(lmag, initial=0.0)) + 1.0)
+            counts["reported_maxcv_checked"] = 1
+            if not (abs(got - want) <= tolr):
+                viols.append(V(
+                    "reported_violation",
+                    f"res.maxcv={got!r} but the interval violation of the "
+                    f"user's linear constraints at res.x is {want!r}"
+                    + (" (NaN entries in the linear data)" if nan_entries
+                       else ""),
+                    mechanism="nan_entries" if nan_entries else "plain",
+                    spec=e2e.jsonable(spec)))
         xl = np.where(np.isfinite(pb.bounds.xl), pb.bounds.xl,
                       np.where(np.isfinite(pb.bounds.xu),
                                pb.bounds.xu - 3.0, -3.0))
@@ -425,6 +466,27 @@ def _run_case(case):
             got = internal_linear(pb.linear, x)
             lv, lmag = truth.linear_violation(bt, xf)
             want = float(np.max(lv, initial=0.0))
+            if not bt.nl:
+                # the violation function the solver itself uses (after the
+                # run: calling it cannot influence anything)
+                with warnings.catch_warnings():
+                    warnings.simplefilter("ignore")
+                    gm = float(pb.maxcv(x))
+                bvl = float(np.max(truth.bound_violation(xf, bt.lb, bt.ub),
+                                   initial=0.0))
+                counts["problem_maxcv_checked"] = counts.get(
+                    "problem_maxcv_checked", 0) + 1
+                if not (abs(gm - max(want, bvl)) <= 64 * EPS * (
+                        float(np.max(lmag, initial=0.0)) + 1.0) + max(
+                        trans.expected(lc["lb"], lc["ub"], np.zeros(
+                            len(lc["lb"])))["half"] for lc in bt.lin)):
+                    viols.append(V(
+                        "problem_maxcv",
+                        f"Problem.maxcv(x)={gm!r} but the interval violation "
+                        f"at build_x(x) is {max(want, bvl)!r}",
+                        mechanism="nan_entries" if nan_entries else "plain",
+                        spec=e2e.jsonable(spec)))
+                    break
             fin = np.concatenate([bt.lb[np.isfinite(bt.lb)],
                                   bt.ub[np.isfinite(bt.ub)]])
             sc = max(1.0, float(np.max(np.abs(fin))) if fin.size else 1.0)
